@@ -580,10 +580,15 @@ void urcu_bp_unregister(struct rcu_reader *rcu_reader_reg)
 	mutex_lock(&rcu_registry_lock);
 	remove_thread(rcu_reader_reg);
 	mutex_unlock(&rcu_registry_lock);
+	/*
+	 * Keep signals blocked while urcu_bp_exit() holds init_lock: a
+	 * signal handler using RCU would register this thread again and
+	 * deadlock on init_lock.
+	 */
+	urcu_bp_exit();
 	ret = pthread_sigmask(SIG_SETMASK, &oldmask, NULL);
 	if (ret)
 		abort();
-	urcu_bp_exit();
 }
 
 /*
